@@ -8,6 +8,7 @@ import Driver.C07
 import Driver.C20
 import Driver.C13
 import Driver.C12
+import Driver.C09
 /-! nvdriver: line protocol. Each input line `<PROP> <tokens…>` is answered by exactly one line:
     `ok[ …]` | `diff …` (model and implementation disagree) | `specviol …` (the implementation's
     own answer violates the property predicate) | `bad-op`. -/
@@ -20,6 +21,7 @@ structure DS where
   c07 : Driver.C07.S := {}
   c20 : Driver.C20.S := {}
   c13 : Driver.C13.S := {}
+  c09 : Driver.C09.S := {}
 
 def dispatch (d : DS) (line : String) : DS × String :=
   match (line.trimAscii.toString.splitOn " ").filter (· ≠ "") with
@@ -39,6 +41,7 @@ def dispatch (d : DS) (line : String) : DS × String :=
     | _ => let (s, o) := Driver.Chan.handle "C07" d.chan rest; ({ d with chan := s }, o)
   | "C20" :: rest => let (s, o) := Driver.C20.handle d.c20 rest; ({ d with c20 := s }, o)
   | "C13" :: rest => let (s, o) := Driver.C13.handle d.c13 rest; ({ d with c13 := s }, o)
+  | "C09" :: rest => let (s, o) := Driver.C09.handle d.c09 rest; ({ d with c09 := s }, o)
   | "C12" :: rest => (d, Driver.C12.handle rest)
   | "C14" :: rest => (d, Driver.C14.handle rest)
   | "C04" :: rest => (d, Driver.C04.handle rest)
